@@ -120,7 +120,20 @@ def g_raiser():
     return m, ["a", "b"], ["g", "c", "h"], [], F, DEPS
 
 
-GRAPHS = {"raiser": g_raiser, "chain": g_chain, "diamond": g_diamond, "dist": g_dist, "weak": g_weak, "dist2": g_dist2}
+def g_pass():
+    """a node whose function hands one of its arguments through unchanged (the recomputed value is the very same object as the cached one when
+    that argument was not assigned), feeding a node that also reads the assigned input directly"""
+    a, b = Value(1, _name="a"), Value(2, _name="b")
+    p = Calc(counted("p", lambda x, y: y), a, b, _name="p")
+    c = Calc(counted("c", lambda x, y: x + 2 * y), p, a, _name="c")
+    k = Calc(counted("k", lambda x, y: 3 * x - y), c, p, _name="k")
+    m = Model([k], to_float32=False)
+    F = {"p": lambda v: v["b"], "c": lambda v: v["p"] + 2 * v["a"], "k": lambda v: 3 * v["c"] - v["p"]}
+    DEPS = {"p": ["a", "b"], "c": ["p", "a"], "k": ["c", "p"]}
+    return m, ["a", "b"], ["p", "c", "k"], [], F, DEPS
+
+
+GRAPHS = {"pass": g_pass, "raiser": g_raiser, "chain": g_chain, "diamond": g_diamond, "dist": g_dist, "weak": g_weak, "dist2": g_dist2}
 M, VALUES, CACHING, TRANS, F, DEPS = GRAPHS[GRAPH]()
 ALL = VALUES + CACHING
 # other model-level nodes without distributions inputs (constant totals) are left alone
